@@ -10,7 +10,7 @@ package regprocessor
 // parseRegMessage calls per address family.
 //
 // Draws: math/rand is re-seeded before every call, so the float the code draws is known exactly
-// (k / 2^53); the 0-9999 gate draw is made irrelevant by using 0 % and 100 % in correspondence cases
+// (k / 2^63); the 0-9999 gate draw is made irrelevant by using 0 % and 100 % in correspondence cases
 // (other percentages are oracle-only); the host draw inside the subnet is read off the result.
 
 import (
@@ -429,9 +429,10 @@ func c12Run(c *c12Case, out *vlib.Out) (res c12Out) {
 		}
 	}
 	u := mrand.New(mrand.NewSource(c.seed)).Float64()
-	uNum := uint64(u * (1 << 53))
-	if float64(uNum)/(1<<53) != u {
-		panic("float draw is not k/2^53")
+	// Float64 is float64(Int63()) / 2^63: an exact fraction k / 2^63
+	uNum := uint64(u * (1 << 63))
+	if float64(uNum)/(1<<63) != u {
+		panic("float draw is not k/2^63")
 	}
 
 	// the call
@@ -505,7 +506,7 @@ func c12Run(c *c12Case, out *vlib.Out) (res c12Out) {
 		hostDraw = *resp.Ipv4Addr
 	}
 	ext := strings.Join([]string{s4, s6, vlib.B(known), vlib.B(parseOK), ov, um, portS, "0", strconv.FormatUint(uNum, 10),
-		strconv.FormatUint(1<<53, 10), strconv.FormatUint(uint64(hostDraw), 10), vlib.B(!c.sendFail)}, ",")
+		strconv.FormatUint(1<<63, 10), strconv.FormatUint(uint64(hostDraw), 10), vlib.B(!c.sendFail)}, ",")
 	res.line = strings.Join([]string{"registrar", cfg, reqS, ext, strconv.Itoa(int(c.method)), c12HexOrDash(c.client)}, "|")
 
 	// implementation answer
@@ -935,7 +936,15 @@ func c12Sweep(sink *vlib.Out, emit c12Emit, tag string, subs []c12Subnet, tr pb.
 			c.auth = k == 1
 			c.seed = c12SeedFor(lo, hi, int64(1000*i+333*k))
 			res := c12Run(c, sink)
-			if res.ok && res.chosen != i {
+			want := i
+			if tr == pb.TransportType_Prefix {
+				// a subnet whose prefix id does not exist cannot be applied (configuration error): the
+				// registrar keeps the original response
+				if px, err := prefix.TryFromID(s.prefixID); err != nil || px == nil {
+					want = -1
+				}
+			}
+			if res.ok && res.chosen != want {
 				got := "no override subnet (phantom not replaced)"
 				if res.chosen >= 0 {
 					got = fmt.Sprintf("subnet %d (%s)", res.chosen, subs[res.chosen].cidr)
